@@ -22,6 +22,7 @@ type scenario struct {
 	Name     string
 	Family   string // "async" | "readonly"
 	MaxBound int    // highest preemption bound to attempt
+	Fine     bool   // library-internal yields (function entries, loop iterations) are scheduling points
 	Mk       func() *instance
 }
 
@@ -597,6 +598,48 @@ func readonlyScenarios(thorough bool) []scenario {
 				for z := y; z < len(tri); z++ {
 					out = append(out, roScenario(sh, ops, [][]int{{tri[x]}, {tri[y]}, {tri[z]}}, 99))
 				}
+			}
+		}
+	}
+	return out
+}
+
+// ---------- family (c): two concurrent read-only calls interleaved INSIDE the library ----------
+// Same oracle as family (b), but the LibYield points the rewriter put at every function entry and loop
+// iteration of the library are scheduling points, explored up to a preemption bound: state shared
+// between calls (package-level buffers, caches, lazily built tables) is caught by the explorer itself.
+func fineScenarios(bound int) []scenario {
+	var out []scenario
+	shapes := []shape{
+		{"list [\"s\",{k:\"v\"},[1,\"t\"],2.5] (strings at three depths)", func() interface{} {
+			return at.NewList("s", at.NewObject("k", "v"), at.NewList(1, "t"), 2.5)
+		}},
+		{"object {a:\"x\",b:[\"y\"]}", func() interface{} { return at.NewObject("a", "x", "b", at.NewList("y")) }},
+	}
+	pick := func(ops []roOp, names ...string) []int {
+		var idx []int
+		for _, n := range names {
+			for i, o := range ops {
+				if o.Name == n {
+					idx = append(idx, i)
+				}
+			}
+		}
+		return idx
+	}
+	for si, sh := range shapes {
+		ops := listRoOps()
+		sel := pick(ops, "String", "FormatString(2)", "Clone", "Equals(own)", "Concat(own)", "SubList(0,0)", "Slice", "NativeSlice", "GetTF(#0)", "Filter(always)", "Map(identity)", "Sum+IntSlice")
+		if si == 1 {
+			ops = objRoOps()
+			sel = pick(ops, "String(decoded)", "Clone", "Equals(own)", "Keys(sorted)", "Dict", "NativeDict", "Merge(own)", "Pluck(a)", "GetTF(.b#0)", "Map(identity)")
+		}
+		for x := 0; x < len(sel); x++ {
+			for y := x; y < len(sel); y++ {
+				sc := roScenario(sh, ops, [][]int{{sel[x]}, {sel[y]}}, bound)
+				sc.Family, sc.Fine = "fine", true
+				sc.Name = "[library-internal yields] " + sc.Name
+				out = append(out, sc)
 			}
 		}
 	}
